@@ -113,6 +113,11 @@ func c07TypeName(t uint8) string {
 	return "UNKNOWN"
 }
 
+// c07SigName is the type name as used in signatures: lower case, dashes.
+func c07SigName(t uint8) string {
+	return strings.ToLower(strings.ReplaceAll(c07TypeName(t), "_", "-"))
+}
+
 // c07Ref is the reference order/stream-id checker. It sees frame headers only.
 type c07Ref struct {
 	open uint32 // stream of the unfinished field block, 0 = none
@@ -128,10 +133,10 @@ func (r *c07Ref) verdict(t c07Frame, maxRead uint32) string {
 	id := t.S & 0x7fffffff
 	if r.open != 0 {
 		if t.T != 0x9 {
-			return "order/open-" + c07TypeName(r.by) + "-block/non-continuation"
+			return "order/open-" + c07SigName(r.by) + "-block/non-continuation"
 		}
 		if id != r.open {
-			return "order/open-" + c07TypeName(r.by) + "-block/continuation-on-other-stream"
+			return "order/open-" + c07SigName(r.by) + "-block/continuation-on-other-stream"
 		}
 	} else if t.T == 0x9 {
 		return "order/no-open-block/continuation"
@@ -139,11 +144,11 @@ func (r *c07Ref) verdict(t c07Frame, maxRead uint32) string {
 	switch t.T {
 	case 0x0, 0x1, 0x2, 0x3, 0x5, 0x9:
 		if id == 0 {
-			return "stream-id/" + c07TypeName(t.T) + "-on-stream-0"
+			return "stream-id/" + c07SigName(t.T) + "-on-stream-0"
 		}
 	case 0x4, 0x6, 0x7, 0x10:
 		if id != 0 {
-			return "stream-id/" + c07TypeName(t.T) + "-on-nonzero-stream"
+			return "stream-id/" + c07SigName(t.T) + "-on-nonzero-stream"
 		}
 	}
 	return ""
@@ -392,7 +397,7 @@ func c07Run(w *vx.W, cfg c07Cfg, train []c07Frame, cut int, expect map[int]c07Ex
 		}
 		for k := idx; k < j; k++ {
 			if clause := ref.verdict(train[k], cfg.MaxRead); clause != "" {
-				w.Failf("C07/"+clause+"/frame-returned", "ReadFrame call %d returned %T although frame %d of the train (%s flags=%#x stream=%#x len=%d) violates %s; %s",
+				w.Failf("C07/"+clause+"-accepted", "ReadFrame call %d returned %T although frame %d of the train (%s flags=%#x stream=%#x len=%d) violates %s; %s",
 					call, f, k, c07TypeName(train[k].T), train[k].F, train[k].S, train[k].L, clause, desc())
 				return
 			}
@@ -406,7 +411,7 @@ func c07Run(w *vx.W, cfg c07Cfg, train []c07Frame, cut int, expect map[int]c07Ex
 			return
 		}
 		if h.Length > cfg.MaxRead {
-			w.Failf("C07/size/frame-longer-than-max-read/frame-returned", "returned frame has Length %d > max read size %d; %s", h.Length, cfg.MaxRead, desc())
+			w.Failf("C07/size/returned-length-above-max-read", "returned frame has Length %d > max read size %d; %s", h.Length, cfg.MaxRead, desc())
 			return
 		}
 		if isMeta {
@@ -774,74 +779,6 @@ func TestVerif_C07(t *testing.T) {
 			}
 		}
 
-		// ---------------------------------------------------------- structured trains
-		fullDepth := vx.Pick(c, 1, 2)
-		vx.Enumerate(c, "train", vx.Opts{}, func(yield func(c07Case) bool) {
-			for depth := 0; depth <= fullDepth+1; depth++ {
-				for _, cfg := range c07Cfgs() {
-					ctx := c07Ctx(cfg)
-					lasts := c07Lasts(cfg, depth > fullDepth)
-					idx := make([]int, len(ctx))
-					for i := range idx {
-						idx[i] = i
-					}
-					ok := vx.Strings(idx, depth, depth, func(pre []int) bool {
-						// a context frame that the reference itself classifies as a violation ends the
-						// connection: the same frame is judged as the last frame of the shorter train
-						var r c07Ref
-						for _, i := range pre {
-							if r.verdict(ctx[i], cfg.MaxRead) != "" {
-								return true
-							}
-							r.advance(ctx[i])
-						}
-						for _, l := range lasts {
-							tr := make([]c07Frame, 0, depth+1)
-							for _, i := range pre {
-								tr = append(tr, ctx[i])
-							}
-							tr = append(tr, l)
-							if !yield(c07Case{cfg, tr, -1}) {
-								return false
-							}
-						}
-						return true
-					})
-					if !ok {
-						return
-					}
-				}
-			}
-		}, runCase)
-
-		// ---------------------------------------------------------- truncation at every offset
-		vx.Enumerate(c, "trunc", vx.Opts{}, func(yield func(c07Case) bool) {
-			for _, cfg := range c07Cfgs() {
-				ctx := c07Ctx(cfg)
-				pres := [][]c07Frame{nil}
-				for i, f := range ctx {
-					if c.Quick() && i != 1 && i != 3 && i != 9 && i != 11 {
-						continue
-					}
-					pres = append(pres, []c07Frame{f})
-				}
-				for _, pre := range pres {
-					for _, l := range c07Lasts(cfg, true) {
-						total := 9 + l.L
-						for cut := 0; cut < total; cut++ {
-							if cut > 56 && cut < total-2 {
-								continue
-							}
-							tr := append(append(make([]c07Frame, 0, 2), pre...), l)
-							if !yield(c07Case{cfg, tr, cut}) {
-								return
-							}
-						}
-					}
-				}
-			}
-		}, runCase)
-
 		// ---------------------------------------------------------- header blocks through ReadMetaHeaders
 		hcfgs := []c07Cfg{}
 		for _, mr := range []uint32{16384, 20} {
@@ -935,5 +872,73 @@ func TestVerif_C07(t *testing.T) {
 				w.Nontrivial()
 			}
 		})
+		// ---------------------------------------------------------- structured trains
+		fullDepth := vx.Pick(c, 1, 2)
+		vx.Enumerate(c, "train", vx.Opts{}, func(yield func(c07Case) bool) {
+			for depth := 0; depth <= fullDepth+1; depth++ {
+				for _, cfg := range c07Cfgs() {
+					ctx := c07Ctx(cfg)
+					lasts := c07Lasts(cfg, depth > fullDepth)
+					idx := make([]int, len(ctx))
+					for i := range idx {
+						idx[i] = i
+					}
+					ok := vx.Strings(idx, depth, depth, func(pre []int) bool {
+						// a context frame that the reference itself classifies as a violation ends the
+						// connection: the same frame is judged as the last frame of the shorter train
+						var r c07Ref
+						for _, i := range pre {
+							if r.verdict(ctx[i], cfg.MaxRead) != "" {
+								return true
+							}
+							r.advance(ctx[i])
+						}
+						for _, l := range lasts {
+							tr := make([]c07Frame, 0, depth+1)
+							for _, i := range pre {
+								tr = append(tr, ctx[i])
+							}
+							tr = append(tr, l)
+							if !yield(c07Case{cfg, tr, -1}) {
+								return false
+							}
+						}
+						return true
+					})
+					if !ok {
+						return
+					}
+				}
+			}
+		}, runCase)
+
+		// ---------------------------------------------------------- truncation at every offset
+		vx.Enumerate(c, "trunc", vx.Opts{}, func(yield func(c07Case) bool) {
+			for _, cfg := range c07Cfgs() {
+				ctx := c07Ctx(cfg)
+				pres := [][]c07Frame{nil}
+				for i, f := range ctx {
+					if c.Quick() && i != 1 && i != 3 && i != 9 && i != 11 {
+						continue
+					}
+					pres = append(pres, []c07Frame{f})
+				}
+				for _, pre := range pres {
+					for _, l := range c07Lasts(cfg, true) {
+						total := 9 + l.L
+						for cut := 0; cut < total; cut++ {
+							if cut > 56 && cut < total-2 {
+								continue
+							}
+							tr := append(append(make([]c07Frame, 0, 2), pre...), l)
+							if !yield(c07Case{cfg, tr, cut}) {
+								return
+							}
+						}
+					}
+				}
+			}
+		}, runCase)
+
 	})
 }
